@@ -6,13 +6,13 @@ import (
 )
 
 //verif:witness H_C03_lines end
-//verif:bound C03 quick 2 goroutines x 1 event through one sync logger; console appender on a slow stream (yields before consuming the bytes) or file appender; text/JSON layout in the appender or at logger level; payload of 1 arbitrary byte per event; the buffer-reuse cap (BufferCap) is an arbitrary int32; sync.Pool.Get may return any pooled object or miss; pre-emption at yields, pool operations' callers' blocking points (1 pre-emptive switch)
+//verif:bound C03 quick 2 goroutines x 1 event through one sync logger; console appender on a slow stream (yields before consuming the bytes) or file appender; text/JSON layout in the appender or at logger level; payload of 1 arbitrary byte per event plus a nested (array) field; the buffer-reuse cap (BufferCap) is an arbitrary int32; sync.Pool.Get may return any pooled object or miss; pre-emption at yields, pool operations' callers' blocking points (1 pre-emptive switch)
 //verif:bound C03 thorough 2 goroutines x 1 event, pre-emption at every visible operation (2 pre-emptive switches)
 //verif:assume C03 the sink consumes the slice it was given after an arbitrary delay (modelled as one yield before reading it); one write(2) per Write call is whole (file-system model)
 //verif:assume C03 more than 2 goroutines are outside the bound (the defect class - a pooled buffer handed out while a write is in flight - needs two)
 
-func vExpectedLine(lay Layout, ts time.Time, msg string) []byte {
-	e := &Event{Level: InfoLevel, Time: ts, Tag: "_t_x", Fields: []Field{Msg(msg)}}
+func vExpectedLine(lay Layout, ts time.Time, msg string, more ...Field) []byte {
+	e := &Event{Level: InfoLevel, Time: ts, Tag: "_t_x", Fields: append([]Field{Msg(msg)}, more...)}
 	return append([]byte(nil), lay.ToBytes(e)...)
 }
 
@@ -54,14 +54,15 @@ func H_C03_lines() {
 	var want [][]byte
 	for g := 0; g < 2; g++ {
 		for i := 0; i < nper; i++ {
-			want = append(want, vExpectedLine(lay, ts, msgs[g*2+i]))
+			want = append(want, vExpectedLine(lay, ts, msgs[g*2+i], Ints("v", []int{g + 1, g + 1})))
 		}
 	}
 	done := make(chan int, 2)
 	for g := 0; g < 2; g++ {
 		go func(g int) {
 			for i := 0; i < nper; i++ {
-				Info(context.Background(), tag, Msg(msgs[g*2+i]))
+				// a scalar and a nested (array) field: the text layout delegates the latter to an embedded JSON encoder
+				Info(context.Background(), tag, Msg(msgs[g*2+i]), Ints("v", []int{g + 1, g + 1}))
 			}
 			done <- 1
 		}(g)
